@@ -170,21 +170,21 @@ def gen(rng, tier):
         for word in itertools.product(letters, repeat=n):
             if tier == "quick" and n == 5 and rng.random() > 0.04:
                 continue
-            if tier == "quick" and n == 4 and rng.random() > 0.6:
+            if tier == "quick" and n == 4 and rng.random() > 0.4:
                 continue
             if tier != "quick" and n == 6 and rng.random() > 0.01:
                 continue
             if tier != "quick" and n == 5 and rng.random() > 0.15:
                 continue
             cases.append(word_case(word))
-    for _ in range(1500 if tier == "quick" else 15000):
-        cases.append(chain_scenario(rng))
     for _ in range(1000 if tier == "quick" else 15000):
+        cases.append(chain_scenario(rng))
+    for _ in range(700 if tier == "quick" else 15000):
         cases.append(K.rand_program(rng, rng.randrange(1, 7), rng.randrange(2, 21), weights=W, cancellers=False))
     # callbacks that run kernel operations (re-entrancy)
-    for _ in range(700 if tier == "quick" else 12000):
-        cases.append(reentrant_scenario(rng))
     for _ in range(500 if tier == "quick" else 12000):
+        cases.append(reentrant_scenario(rng))
+    for _ in range(350 if tier == "quick" else 12000):
         cases.append(K.rand_script_program(rng, rng.randrange(1, 6), rng.randrange(2, 16), cancellers=False))
     # how a failure is handed to errback must not matter (bare errback() inside an except block, errback(None), ...)
     cases += K.with_errback_forms(cases, rng, 0.08 if tier == "quick" else 0.05)
@@ -260,13 +260,13 @@ SPEC = Spec(
     nontrivial=lambda c, o: "R" in o,
     histogram=histogram,
     describe=lambda c: {"n_deferreds": len(c["canc"]), "ops": c["ops"][:14], "debug": bool(c.get("debug"))},
-    rule="every program of length <= 3, 60% of length 4, 4% of length 5 (quick) / <= 4, 15% of 5, 1% of 6 over a "
+    rule="every program of length <= 3, 40% of length 4, 4% of length 5 (quick) / <= 4, 15% of 5, 1% of 6 over a "
          "12-letter alphabet (thorough) on two Deferreds {outer callback returns inner, add pass-through callback to "
-         "inner / outer, fire inner / outer, pause / unpause inner / outer}; 1 500 (15 000) chain scenarios (2-5 "
-         "Deferreds waiting on each other, late callbacks, pauses on waiting Deferreds, unbalanced unpauses); 1 000 "
+         "inner / outer, fire inner / outer, pause / unpause inner / outer}; 1 000 (15 000) chain scenarios (2-5 "
+         "Deferreds waiting on each other, late callbacks, pauses on waiting Deferreds, unbalanced unpauses); 700 "
          "(15 000) random programs over 1-6 Deferreds, 2-20 operations, callback behaviours {value, None, Failure, "
          "Deferred d_i, raise (Exception subclasses and GeneratorExit / asyncio.CancelledError / SystemExit / "
-         "KeyboardInterrupt / a BaseException subclass), pass-through} on either or both sides.  700 (12 000) re-entrant scenarios and 500 (12 000) random programs whose callbacks run scripts of kernel operations (add to the running or to any other Deferred, callback / errback / pause / unpause / cancel), evaluated on the re-entrant kernel DeferredKR; 10% (5%) of all cases once more with trivial Deferred-subclass instances, 8% (4%) under defer.setDebugging(True).  non-trivial = at least one user callback ran; "
+         "KeyboardInterrupt / a BaseException subclass), pass-through} on either or both sides.  500 (12 000) re-entrant scenarios and 350 (12 000) random programs whose callbacks run scripts of kernel operations (add to the running or to any other Deferred, callback / errback / pause / unpause / cancel), evaluated on the re-entrant kernel DeferredKR; 10% (5%) of all cases once more with trivial Deferred-subclass instances, 8% (4%) under defer.setDebugging(True).  non-trivial = at least one user callback ran; "
          "distinct by (case, observation)",
     trusted=["hand-written kernel model coq/Lib/DeferredK.v (tied by this correspondence run only)",
              "callbacks are fixed behaviours or scripts of kernel operations followed by a fixed behaviour (re-entrant kernel "
